@@ -26,4 +26,7 @@ func init() {
 	reg("C05", propMeta{Level: "exploration", QuickRuns: 1600, ThoroughRuns: 60000,
 		Rule: "one run = one generated program (seeded; recursion, negation, aggregation, comparisons, functions, temporal by swarm flags) evaluated K times (quick 6, thorough 12) under drawn map-order policy x store kind x deterministic-order flag x clause/fact permutation x variable/predicate renaming x package wrapping; oracle: all K canonical fact sets equal and all-or-none fail. Non-trivial: accepted by analysis, >=1 derived fact, >=2 distinct map orders presented with >=2 keys. Distinct = distinct trace hashes.",
 		Assumptions: []string{"map-order policies are a handful of permutations per range site, not all n!", "generator fragment only (see DESIGN 3.6)"}})
+	reg("C06", propMeta{Level: "exploration", QuickRuns: 8000, ThoroughRuns: 400000,
+		Rule: "one run = one store topology (simple/indexed/multi-indexed/multi-indexed-array, concurrent(.), teeing(prefilled base), merged(1-2 disjoint prefilled read stores), temporal adapter with/without instant) x drawn map-order policy x a history of 1-30 (thorough 1-60) operations from {Add, Remove, Contains, GetFacts(pattern), Merge(other store), aborted scan, count} over a universe of 2-4 predicates (p/1 and p/2 share a symbol) and constants of every kind incl. nested structures, filtered to be free of Atom.Hash collisions; the set-of-atoms model is compared after every operation (membership of every universe atom, full scans exactly-once, listing, exact count where documented). Non-trivial: >= 2 state-changing operations. Distinct = distinct trace hashes.",
+		Assumptions: []string{"universe atoms with equal Atom.Hash() are excluded from random histories (known finding, covered by fixed probes)", "read stores of a merged store are disjoint, as its documentation advises"}})
 }
